@@ -118,7 +118,8 @@ def run(pid, tier, seed, replay=None):
     nontrivial = set()
     plans = [("known", seed, 250 if quick else 4000, 6), ("unknown", seed + 1, 120 if quick else 1500, 5),
              ("noreflection", seed + 2, 120 if quick else 1500, 5), ("mixed", seed + 3, 200 if quick else 3000, 8),
-             ("shapes", seed + 4, 60 if quick else 800, 6)]
+             ("shapes", seed + 4, 60 if quick else 800, 6),
+             ("boundary", 0, 4 if quick else 40, 6)]     # the edge values of every type, written out (not sampled)
     if pid == "C02":
         # every serializable descriptor (canonical and alias spellings) as a one-property instance, default options
         plans.append(("descriptors", seed + 8, 0, 6))
